@@ -12,6 +12,7 @@ import (
 	"verifharness/fpfam"
 	"verifharness/loadfam"
 	"verifharness/outfam"
+	"verifharness/remotefam"
 	"verifharness/rep"
 )
 
@@ -34,6 +35,12 @@ func main() {
 			tier = os.Args[2]
 		}
 		os.Exit(outfam.Check(tier))
+	case "C20":
+		tier := "quick"
+		if len(os.Args) > 2 {
+			tier = os.Args[2]
+		}
+		os.Exit(remotefam.Check(tier))
 	case "C19":
 		tier := "quick"
 		if len(os.Args) > 2 {
